@@ -5,4 +5,8 @@ set -e
 cd "$(dirname "$0")"
 if [ -f harness/gen_tables.py ]; then PYTHONPATH=/repo/src /venv/bin/python harness/gen_tables.py; fi
 cd lean
-lake build ExaModel exadriver
+lake build ExaModel
+for f in Drv/*.lean; do
+  m=$(basename "$f" .lean | tr 'A-Z' 'a-z')
+  lake build "drv_$m"
+done
